@@ -7,7 +7,9 @@ import ast
 from ..common import AnalysisError, rel
 from ..cfg import cfg_of
 from ..fold import Folder, Env, FoldRaise, ClassVal
-from .. import boolfn
+from .. import boolfn, pathsum
+from ..callgraph import CallGraph
+from ..pathsum import struct, show, is_const, path_terms, arith_key, replace
 
 PLIST = ('minecraft.networking.packets.clientbound.play.'
          'player_list_item_packet')
@@ -21,6 +23,9 @@ ENUM = 'minecraft.networking.types.enum'
 
 def run(report, db, tier):
     report.explanation = (
+        'Each tracker method is summarised path by path (vp.pathsum: '
+        'effects, branch decisions, values as terms over the packet\'s '
+        'fields).  '
         'Only relations between effects and guards are decided: which apply '
         'method may insert into the player table, that updates are guarded '
         'non-raising lookups, that each axis adds under its protocol flag '
@@ -30,21 +35,35 @@ def run(report, db, tier):
         'history, name_from_value round trips and numeric vector results '
         'are value-level and NOT decided.')
     F = Folder(db)
-    players(report, db)
-    position(report, db, F)
-    map_patch(report, db)
+    cg = CallGraph(db)
+    S = pathsum.PathSum(db, cg, inline_pred=pathsum.known_unit_pred())
+    players(report, db, S)
+    position(report, db, S)
+    map_patch(report, db, S)
     aliases(report, db)
-    records(report, db)
+    records(report, db, S)
 
 
 # ---------------------------------------------------------------------------
-def players(report, db):
+def sy(n):
+    return ('sym', n)
+
+
+def at(base, *names):
+    for n in names:
+        base = ('attr', base, n)
+    return base
+
+
+def players(report, db, S):
     R = report.rule('R20.1', 'player list: only AddPlayerAction inserts '
-                    '(unconditionally, keyed by uuid); updates use a '
-                    'non-raising lookup and store under a guard on it; '
-                    'removal is guarded; actions apply in order')
+                    '(unconditionally, keyed by uuid, an item built from '
+                    'its own fields); updates use a non-raising lookup and '
+                    'store under a guard on it; removal is guarded; actions '
+                    'apply in order')
     pk = db.get_class(PLIST, 'PlayerListItemPacket')
     act = db.get_class(PLIST, 'PlayerListItemPacket.Action')
+    item = db.get_class(PLIST, 'PlayerListItemPacket.PlayerListItem')
     subs = db.subclasses(act)
     report.floor('player list actions', len(subs), 5)
     for ci in subs:
@@ -53,125 +72,143 @@ def players(report, db):
             report.violation(R, 'apply:missing:%s' % ci.name, ci.path,
                              ci.node, ci.qualname, 'action has no apply()')
             continue
-        me, pl = fi.params[0], fi.params[1]
-        tbl = '%s.players_by_uuid' % pl
-        g = cfg_of(fi)
-        inserts = [n for n in g.reachable_nodes() if isinstance(
-            n.ast, ast.Assign) and any(
-                isinstance(t, ast.Subscript) and ast.unparse(t.value) == tbl
-                for t in n.ast.targets)]
-        raw = [x for x in ast.walk(fi.node) if isinstance(x, ast.Subscript)
-               and isinstance(x.ctx, ast.Load)
-               and ast.unparse(x.value) == tbl]
-        dels = [n for n in g.reachable_nodes() if isinstance(n.ast,
-                                                             ast.Delete)]
-        pops = [x for x in ast.walk(fi.node) if isinstance(x, ast.Call)
-                and ast.unparse(x.func) == tbl + '.pop']
+        me, pl = sy(fi.params[0]), sy(fi.params[1])
+        tbl = at(pl, 'players_by_uuid')
+        uuid = at(me, 'uuid')
+        paths = S.run(fi)
+        inserts = [(p, e) for p in paths for e in p.flat(('setitem',))
+                   if struct(e.base) == tbl]
+        raw = [t for p in paths for t in path_terms(p)
+               if t[0] == 'op' and t[1] == 'index' and struct(t[2][0]) == tbl]
         if ci.name == 'AddPlayerAction':
-            ok = len(inserts) == 1 and not boolfn.path_conditions(
-                g, inserts[0]) and ast.unparse(
-                    inserts[0].ast.targets[0].slice) == '%s.uuid' % me
-            if ok:
-                v = inserts[0].ast.value
-                src = None
-                for x in ast.walk(fi.node):
-                    if isinstance(x, ast.Assign) and isinstance(
-                            x.targets[0], ast.Name) and isinstance(
-                                v, ast.Name) and x.targets[0].id == v.id:
-                        src = x.value
-                kws = {k.arg: ast.unparse(k.value) for k in src.keywords} \
-                    if isinstance(src, ast.Call) else {}
-                want = {f: '%s.%s' % (me, f) for f in (
+            prob = []
+            for p in paths:
+                if not p.returns:
+                    continue
+                ins = [e for e in p.flat(('setitem',))
+                       if struct(e.base) == tbl]
+                if len(ins) != 1 or struct(ins[0].key) != uuid:
+                    prob.append('an add must store table[self.uuid] on '
+                                'every path (it overwrites an existing '
+                                'entry); path [%s] stores %s' % (
+                                    p.cond_text(), [repr(e) for e in ins]))
+                    continue
+                v = ins[0].value
+                if not (v[0] == 'obj' and v[3] is item):
+                    prob.append('the inserted value is %s, not a '
+                                'PlayerListItem' % show(v))
+                    continue
+                got = {k[1]: show(x) for k, x in p.heap.items() if k[0] == v}
+                want = {f: show(at(me, f)) for f in (
                     'uuid', 'name', 'properties', 'gamemode', 'ping',
                     'display_name')}
-                if kws == want:
-                    report.ok(R, 'add: table[self.uuid] = item built from '
-                              'the action\'s own fields (overwrites)')
-                else:
-                    report.violation(R, 'add:fields', fi.path, fi.node,
-                                     fi.qualname, 'the inserted item is '
-                                     'built from %s' % kws)
+                if got != want:
+                    prob.append('the inserted item is built from %s' % got)
+            if prob:
+                report.violation(R, 'add:insert' if 'must store' in prob[0]
+                                 else 'add:fields', fi.path, fi.node,
+                                 fi.qualname, '; '.join(prob))
             else:
-                report.violation(R, 'add:insert', fi.path, fi.node,
-                                 fi.qualname, 'an add must store '
-                                 'table[self.uuid] unconditionally (it '
-                                 'overwrites an existing entry)')
+                report.ok(R, 'add: table[self.uuid] = item built from the '
+                          'action\'s own fields (overwrites)')
             continue
         if inserts:
             report.violation(R, 'update-inserts:%s' % ci.name, fi.path,
-                             inserts[0].ast, fi.qualname, '%s inserts into '
-                             'the player table: an update for an unknown '
-                             'player must be a no-op' % ci.name)
+                             inserts[0][1].node, fi.qualname, '%s inserts '
+                             'into the player table: an update for an '
+                             'unknown player must be a no-op' % ci.name)
         if raw:
             report.violation(R, 'raising-lookup:%s' % ci.name, fi.path,
-                             raw[0], fi.qualname, '%s looks the player up '
+                             fi.node, fi.qualname, '%s looks the player up '
                              'with [], which raises KeyError for an unknown '
                              'player' % ci.name)
         if ci.name == 'RemovePlayerAction':
-            okk = False
-            for n in dels:
-                conds = [(ast.unparse(e), t) for e, t in
-                         boolfn.path_conditions(g, n)]
-                if conds == [('%s.uuid in %s' % (me, tbl), True)] and \
-                        ast.unparse(n.ast.targets[0]) == '%s[%s.uuid]' % (
-                            tbl, me):
-                    okk = True
-            if pops and all(len(p.args) == 2 for p in pops):
-                okk = True
-            if okk:
+            okk = True
+            removed = 0
+            member = ('op', 'in', (uuid, tbl))
+            for p in paths:
+                for e in p.flat(('delitem',)):
+                    if struct(e.base) != tbl:
+                        continue
+                    removed += 1
+                    if struct(e.key) != uuid or not any(
+                            struct(a) == member and pol
+                            for a, pol, _ in p.conds_at(e)):
+                        okk = False
+                for e in p.calls():
+                    if e.fn == ('attr', tbl, 'pop') or struct(e.fn) == (
+                            'attr', tbl, 'pop'):
+                        removed += 1
+                        if len(e.args) != 2 or struct(e.args[0]) != uuid:
+                            okk = False
+            if okk and removed:
                 report.ok(R, 'remove: guarded by membership')
             else:
                 report.violation(R, 'remove:unguarded', fi.path, fi.node,
                                  fi.qualname, 'removal of an unknown player '
                                  'is not a no-op')
             continue
-        # update actions: player = table.get(self.uuid); if player: store
-        look = [x for x in ast.walk(fi.node) if isinstance(x, ast.Assign)
-                and isinstance(x.value, ast.Call)
-                and ast.unparse(x.value.func) == tbl + '.get'
-                and [ast.unparse(a) for a in x.value.args][:1] ==
-                ['%s.uuid' % me]]
-        if len(look) != 1 or not isinstance(look[0].targets[0], ast.Name):
+        # update actions: P = table.get(self.uuid); store P.f = self.f only
+        # on paths where P is known to be there
+        look = ('call', ('attr', tbl, 'get'), (uuid,), (), None)
+        nst = 0
+        good = True
+        why = ''
+        for p in paths:
+            for e in p.flat(('store',)):
+                if e.base[0] == 'obj':
+                    continue
+                nst += 1
+                if struct(e.base) != look:
+                    good, why = False, 'stores on %s' % show(e.base)
+                    continue
+                guarded = False
+                for a, pol, _ in p.conds_at(e):
+                    if a[1] == 'truth' and struct(a[2][0]) == look and pol:
+                        guarded = True
+                    if a[1] == 'is' and struct(a[2][0]) == look and \
+                            a[2][1] == ('const', None) and not pol:
+                        guarded = True
+                if not guarded:
+                    good, why = False, 'the store is not guarded by the ' \
+                        'lookup\'s result'
+                if struct(e.value) != at(me, e.attr):
+                    good, why = False, 'player.%s = %s' % (e.attr,
+                                                           show(e.value))
+        if not nst:
             if not raw:
                 report.violation(R, 'update:lookup:%s' % ci.name, fi.path,
                                  fi.node, fi.qualname, '%s does not look '
-                                 'the player up by self.uuid' % ci.name)
+                                 'the player up by self.uuid and store on '
+                                 'it' % ci.name)
             continue
-        pv = look[0].targets[0].id
-        sts = [n for n in g.reachable_nodes() if isinstance(
-            n.ast, ast.Assign) and any(
-                isinstance(t, ast.Attribute) and isinstance(t.value,
-                                                            ast.Name)
-                and t.value.id == pv for t in n.ast.targets)]
-        good = bool(sts)
-        for n in sts:
-            conds = boolfn.path_conditions(g, n)
-            ref = ast.parse(pv, mode='eval').body
-            ref2 = ast.parse('%s is not None' % pv, mode='eval').body
-            c = conds[0][0] if len(conds) == 1 and conds[0][1] else None
-            if c is None or not (boolfn.same_function(c, ref) or
-                                 boolfn.same_function(c, ref2)):
-                good = False
-            t = n.ast.targets[0]
-            if ast.unparse(n.ast.value) != '%s.%s' % (me, t.attr):
-                good = False
         if good:
-            report.ok(R, '%s: guarded store of player.%s = self.%s' % (
-                ci.name, sts[0].ast.targets[0].attr,
-                sts[0].ast.targets[0].attr))
+            report.ok(R, '%s: guarded store of its own field on the player '
+                      'found by table.get(self.uuid)' % ci.name)
         else:
             report.violation(R, 'update:store:%s' % ci.name, fi.path,
                              fi.node, fi.qualname, '%s must store its own '
                              'field on the player only when the lookup '
-                             'found one' % ci.name)
+                             'found one (%s)' % (ci.name, why))
     ap = db.own_method(pk, 'apply')
+    me, pl = sy(ap.params[0]), sy(ap.params[1])
     okk = False
-    for n in ast.walk(ap.node):
-        if isinstance(n, ast.For) and ast.unparse(n.iter) == \
-                '%s.actions' % ap.params[0] and len(n.body) == 1 and \
-                ast.unparse(n.body[0]) == '%s.apply(%s)' % (
-                    ast.unparse(n.target), ap.params[1]):
-            okk = True
+    paths = S.run(ap)
+    for p in paths:
+        loops = [e for e in p.events if e.kind == 'loop']
+        if len(loops) == 1 and struct(loops[0].ctx) == at(me, 'actions'):
+            body = [c for q in loops[0].paths for c in q.calls()]
+            if len(loops[0].paths) == 1 and len(body) == 1 and \
+                    body[0].fn[0] == 'attr' and body[0].fn[2] == 'apply' \
+                    and body[0].fn[1][0] == 'elem' and \
+                    [struct(x) for x in body[0].args] == [pl]:
+                okk = True
+            else:
+                okk = False
+                break
+        else:
+            okk = False
+            break
     if okk:
         report.ok(R, 'packet.apply applies self.actions front to back')
     else:
@@ -180,7 +217,7 @@ def players(report, db):
 
 
 # ---------------------------------------------------------------------------
-def position(report, db, F):
+def position(report, db, S):
     R = report.rule('R20.2', 'position: each of x y z yaw pitch adds under '
                     'its protocol flag bit (1, 2, 4, 8, 16) and overwrites '
                     'otherwise, from the same-named field; angles are '
@@ -189,91 +226,96 @@ def position(report, db, F):
     fi = db.own_method(ci, 'apply')
     if fi is None:
         raise AnalysisError('PlayerPositionAndLookPacket.apply vanished')
-    g = cfg_of(fi)
-    me, tg = fi.params[0], fi.params[1]
+    me, tg = sy(fi.params[0]), sy(fi.params[1])
     bits = {'x': 1, 'y': 2, 'z': 4, 'yaw': 8, 'pitch': 16}
-    for axis, bit in sorted(bits.items()):
-        adds, sets = [], []
-        for n in g.reachable_nodes():
-            a = n.ast
-            if isinstance(a, ast.AugAssign) and ast.unparse(a.target) == \
-                    '%s.%s' % (tg, axis) and isinstance(a.op, ast.Add):
-                adds.append(n)
-            elif isinstance(a, ast.Assign) and ast.unparse(a.targets[0]) == \
-                    '%s.%s' % (tg, axis):
-                sets.append(n)
-        if len(adds) != 1 or len(sets) != 1:
-            report.violation(R, 'position:%s:stores' % axis, fi.path,
-                             fi.node, fi.qualname, 'axis %s has %d additive '
-                             'and %d overwriting stores (one each expected)'
-                             % (axis, len(adds), len(sets)))
+    paths = S.run(fi)
+    if len(paths) < 32:
+        report.note('apply has %d paths' % len(paths))
+    flags = at(me, 'flags')
+
+    def flag_of(a):
+        """bit mask when the atom is a truth test of self.flags & const"""
+        if a[1] != 'truth':
+            return None
+        x = a[2][0]
+        if x[0] == 'op' and x[1] == '&' and len(x[2]) == 2:
+            l, r = x[2]
+            if struct(l) == flags and is_const(r):
+                return r[1]
+            if struct(r) == flags and is_const(l):
+                return l[1]
+        return None
+    prob = {}
+    seen = {a: set() for a in bits}
+    for p in paths:
+        if not p.returns:
             continue
-        prob = []
-        for n, rel_ in ((adds[0], True), (sets[0], False)):
-            val = n.ast.value
-            if ast.unparse(val) != '%s.%s' % (me, axis):
-                prob.append('%s uses %s' % ('+=' if rel_ else '=',
-                                            ast.unparse(val)))
-            conds = boolfn.path_conditions(g, n)
-            if len(conds) != 1:
-                prob.append('not guarded by exactly one flag test')
+        decided = {}
+        for a, pol, _ in p.conds:
+            m = flag_of(a)
+            if m is not None:
+                decided[m] = pol
+        for axis, bit in bits.items():
+            sts = [e for e in p.flat(('store',)) if struct(e.base) == tg
+                   and e.attr == axis]
+            if not sts:
+                prob.setdefault(axis, 'no store on the path [%s]'
+                                % p.cond_text())
                 continue
-            e, t = conds[0]
-            mask = flag_mask(F, ci, e, me)
-            if mask is None:
-                prob.append('guard %s is not a test of self.flags against '
-                            'a constant' % ast.unparse(e))
-            elif mask != bit:
-                prob.append('guard tests bit %#x; the protocol assigns %#x '
-                            'to %s' % (mask, bit, axis))
-            elif t != rel_:
-                prob.append('relative and absolute arms are swapped')
-        if prob:
-            report.violation(R, 'position:%s' % axis, fi.path, adds[0].ast,
-                             fi.qualname, 'axis %s: %s' % (axis,
-                                                           '; '.join(prob)))
+            first = sts[0]
+            add = ('op', '+', (at(tg, axis), at(me, axis)))
+            add2 = ('op', '+', (at(me, axis), at(tg, axis)))
+            v = struct(first.value)
+            if v in (add, add2):
+                kind = True
+            elif v == at(me, axis):
+                kind = False
+            else:
+                prob.setdefault(axis, 'stores %s' % show(first.value))
+                continue
+            if bit not in decided:
+                other = [m for m, pol in decided.items()]
+                prob.setdefault(axis, 'not decided by flag bit %#x (the '
+                                'path tests bits %s)' % (bit, sorted(
+                                    '%#x' % m for m in other)))
+                continue
+            if decided[bit] != kind:
+                prob.setdefault(axis, 'relative and absolute arms are '
+                                'swapped (bit %#x %s -> %s)' % (
+                                    bit, 'set' if decided[bit] else 'clear',
+                                    '+=' if kind else '='))
+                continue
+            seen[axis].add(kind)
+            rest = sts[1:]
+            if axis in ('yaw', 'pitch'):
+                wrap = ('op', '%', (struct(first.value), ('const', 360)))
+                if len(rest) != 1 or struct(rest[0].value) != wrap:
+                    prob.setdefault('wrap:' + axis, '%s is not wrapped '
+                                    'into [0, 360) after the last store to '
+                                    'it (stores: %s)' % (axis, [
+                                        show(e.value) for e in sts]))
+            elif rest:
+                prob.setdefault(axis, 'stored %d times' % len(sts))
+    for axis, bit in sorted(bits.items()):
+        if axis in prob:
+            report.violation(R, 'position:%s' % axis, fi.path, fi.node,
+                             fi.qualname, 'axis %s: %s' % (axis, prob[axis]))
+        elif seen[axis] != {True, False}:
+            report.violation(R, 'position:%s:stores' % axis, fi.path,
+                             fi.node, fi.qualname, 'axis %s lacks an '
+                             'additive or an overwriting path' % axis)
         else:
             report.ok(R, '%s: += under flag %#x, = otherwise' % (axis, bit))
     for ang in ('yaw', 'pitch'):
-        wraps = [n for n in g.reachable_nodes() if isinstance(
-            n.ast, ast.AugAssign) and isinstance(n.ast.op, ast.Mod)
-            and ast.unparse(n.ast.target) == '%s.%s' % (tg, ang)
-            and ast.unparse(n.ast.value) == '360']
-        others = [n for n in g.reachable_nodes() if n.ast is not None
-                  and n not in wraps and isinstance(
-                      n.ast, (ast.Assign, ast.AugAssign))
-                  and ast.unparse(n.ast.targets[0] if isinstance(
-                      n.ast, ast.Assign) else n.ast.target) ==
-                  '%s.%s' % (tg, ang)]
-        if len(wraps) == 1 and g.postdominates(wraps[0], g.entry,
-                                               include_raise=False) and \
-                not any(g.exists_path(wraps[0], lambda x: x is o)
-                        for o in others):
-            report.ok(R, '%s %%= 360 after all other stores' % ang)
-        else:
+        if 'wrap:' + ang in prob:
             report.violation(R, 'position:wrap:%s' % ang, fi.path, fi.node,
-                             fi.qualname, '%s is not wrapped into [0, 360) '
-                             'after the last store to it' % ang)
-
-
-def flag_mask(F, ci, e, me):
-    if isinstance(e, ast.BinOp) and isinstance(e.op, ast.BitAnd):
-        for a, b in ((e.left, e.right), (e.right, e.left)):
-            if ast.unparse(a) == '%s.flags' % me:
-                if isinstance(b, ast.Attribute) and isinstance(
-                        b.value, ast.Name) and b.value.id == me:
-                    try:
-                        v = F.getattr(ClassVal(ci), b.attr, b, ci.module)
-                    except FoldRaise:
-                        return None
-                    return v if isinstance(v, int) else None
-                if isinstance(b, ast.Constant) and isinstance(b.value, int):
-                    return b.value
-    return None
+                             fi.qualname, prob['wrap:' + ang])
+        elif ang not in prob:
+            report.ok(R, '%s %%= 360 after all other stores' % ang)
 
 
 # ---------------------------------------------------------------------------
-def map_patch(report, db):
+def map_patch(report, db, S):
     R = report.rule('R20.3', 'map patch: pixel i lands at offset + (i mod '
                     'packet width, i div packet width), row stride is the '
                     'map\'s width; x from offset[0], z from offset[1]')
@@ -281,79 +323,126 @@ def map_patch(report, db):
     fi = db.own_method(ci, 'apply_to_map')
     if fi is None:
         raise AnalysisError('MapPacket.apply_to_map vanished')
-    me, mp = fi.params[0], fi.params[1]
-    loops = [n for n in ast.walk(fi.node) if isinstance(n, ast.For)]
-    if len(loops) != 1 or not isinstance(loops[0].target, ast.Name):
-        raise AnalysisError('apply_to_map: pixel loop not found', fi.node,
-                            rel(fi.path))
-    lp = loops[0]
-    i = lp.target.id
-    env = {}
-    store = None
-    for st in lp.body:
-        if isinstance(st, ast.Assign) and isinstance(st.targets[0],
-                                                     ast.Name):
-            env[st.targets[0].id] = ast.unparse(st.value)
-        elif isinstance(st, ast.Assign) and isinstance(st.targets[0],
-                                                       ast.Subscript):
-            store = st
-    rng = ast.unparse(lp.iter)
-    want_rng = 'range(len(%s.pixels))' % me
-    xs = [k for k, v in env.items()
-          if v in ('%s.offset[0] + %s %% %s.width' % (me, i, me),)]
-    zs = [k for k, v in env.items()
-          if v in ('%s.offset[1] + %s // %s.width' % (me, i, me),)]
+    me, mp = sy(fi.params[0]), sy(fi.params[1])
+    pix = at(me, 'pixels')
+    paths = S.run(fi)
     prob = []
-    if rng != want_rng:
-        prob.append('iterates %s' % rng)
-    if len(xs) != 1:
-        prob.append('no column = offset[0] + i %% self.width (found %s)'
-                    % env)
-    if len(zs) != 1:
-        prob.append('no row = offset[1] + i // self.width (found %s)' % env)
-    if store is None:
-        prob.append('no pixel store')
-    elif xs and zs:
-        tgt = ast.unparse(store.targets[0])
-        val = ast.unparse(store.value)
-        good_t = ('%s.pixels[%s + %s.width * %s]' % (mp, xs[0], mp, zs[0]),
-                  '%s.pixels[%s.width * %s + %s]' % (mp, mp, zs[0], xs[0]),
-                  '%s.pixels[%s + %s * %s.width]' % (mp, xs[0], zs[0], mp),
-                  '%s.pixels[%s * %s.width + %s]' % (mp, zs[0], mp, xs[0]))
-        if tgt not in good_t:
-            prob.append('stores to %s (row stride must be the map\'s '
-                        'width)' % tgt)
-        if val != '%s.pixels[%s]' % (me, i):
-            prob.append('stores %s' % val)
+    nloops = 0
+    site = fi.node
+    for p in paths:
+        loops = [e for e in p.flat(('loop',))]
+        for lp in loops:
+            it = struct(lp.ctx)
+            if it == ('op', 'range', (('op', 'len', (pix,)),)):
+                mode = 'range'
+            elif it == ('op', 'enumerate', (pix,)):
+                mode = 'enum'
+            else:
+                prob.append('iterates %s' % show(lp.ctx))
+                continue
+            nloops += 1
+            site = lp.node
+            guard = [pol for a, pol, _ in p.conds_at(lp)
+                     if a[1] == 'is' and struct(a[2][0]) == pix
+                     and a[2][1] == ('const', None)]
+            if guard != [False]:
+                prob.append('the pixel loop is not guarded by `pixels is '
+                            'not None`')
+            sts = [e for q in lp.paths for e in q.flat(('setitem',))]
+            if len(sts) != 1 or len(lp.paths) != 1:
+                prob.append('no single pixel store per iteration')
+                continue
+            e = sts[0]
+            elems = [t for t in pathsum.subterms(e.key) if t[0] == 'elem']
+            if not elems:
+                prob.append('the store does not depend on the index')
+                continue
+            el = elems[0]
+            I = ('sym', '<i>')
+            if mode == 'range':
+                key = replace(e.key, el, I)
+                val_ok = struct(e.value) == struct(('op', 'index',
+                                                    (pix, el)))
+            else:
+                key = replace(e.key, ('op', 'index', (el, ('const', 0))), I)
+                val_ok = struct(e.value) == struct(
+                    ('op', 'index', (el, ('const', 1)))) or struct(
+                        e.value) == struct(('op', 'index', (pix, (
+                            'op', 'index', (el, ('const', 0))))))
+            w = at(me, 'width')
+            off = at(me, 'offset')
+            col = ('op', '+', (('op', 'index', (off, ('const', 0))),
+                               ('op', '%', (I, w))))
+            row = ('op', '+', (('op', 'index', (off, ('const', 1))),
+                               ('op', '//', (I, w))))
+            want = ('op', '+', (col, ('op', '*', (at(mp, 'width'), row))))
+            if struct(e.base) != at(mp, 'pixels'):
+                prob.append('stores into %s' % show(e.base))
+            if arith_key(key) != arith_key(want):
+                prob.append('stores to index %s; it must be (offset[0] + i '
+                            '%% self.width) + map.width * (offset[1] + i // '
+                            'self.width) (row stride is the map\'s width)'
+                            % show(key))
+            if not val_ok:
+                prob.append('stores %s, not pixel i' % show(e.value))
+        if not loops and not any(
+                a[1] == 'is' and struct(a[2][0]) == pix and pol
+                for a, pol, _ in p.conds):
+            prob.append('no pixel loop on the path [%s]' % p.cond_text())
+    if not nloops and not prob:
+        prob.append('pixel loop not found')
     if prob:
-        report.violation(R, 'map:index', fi.path, lp, fi.qualname,
-                         '; '.join(prob))
+        report.violation(R, 'map:index', fi.path, site, fi.qualname,
+                         '; '.join(sorted(set(prob))))
     else:
-        report.ok(R, 'map.pixels[x + map.width * z] = self.pixels[i]')
-    # guarded by pixels present
-    g = cfg_of(fi)
-    heads = [n for n in g.reachable_nodes() if n.kind == 'for']
-    conds = [(ast.unparse(e), t) for e, t in
-             boolfn.path_conditions(g, heads[0])] if heads else []
-    if conds == [('%s.pixels is not None' % me, True)]:
-        report.ok(R, 'patch only when the packet carries pixels')
-    else:
-        report.violation(R, 'map:guard', fi.path, lp, fi.qualname,
-                         'the pixel loop is guarded by %s' % conds)
+        report.ok(R, 'map.pixels[x + map.width * z] = self.pixels[i], only '
+                  'when the packet carries pixels')
     # apply_to_map_set: creates a missing map, then applies
     fs = db.own_method(ci, 'apply_to_map_set')
     if fs is None:
         raise AnalysisError('MapPacket.apply_to_map_set vanished')
-    src = ast.unparse(fs.node)
-    if '.get(%s.map_id)' % fs.params[0] in src and \
-            'maps_by_id[%s.map_id] = ' % fs.params[0] in src and \
-            '%s.apply_to_map(' % fs.params[0] in src:
+    me, ms = sy(fs.params[0]), sy(fs.params[1])
+    tbl = at(ms, 'maps_by_id')
+    mid = at(me, 'map_id')
+    look = ('call', ('attr', tbl, 'get'), (mid,), (), None)
+    mapci = db.get_class(MAP, 'MapPacket.Map')
+    okk = True
+    why = ''
+    created = found = 0
+    for p in S.run(fs):
+        if not p.returns:
+            continue
+        app = [e for e in p.calls() if e.calls(fi)]
+        if len(app) != 1 or not app[0].args:
+            okk, why = False, 'the packet is not applied exactly once'
+            continue
+        arg = app[0].args[-1] if len(app[0].args) == 1 else app[0].args[-1]
+        missing = [pol for a, pol, _ in p.conds if a[1] == 'is' and
+                   struct(a[2][0]) == look and a[2][1] == ('const', None)]
+        missing += [not pol for a, pol, _ in p.conds if a[1] == 'truth'
+                    and struct(a[2][0]) == look]
+        ins = [e for e in p.flat(('setitem',)) if struct(e.base) == tbl]
+        if missing == [True]:
+            created += 1
+            if not (arg[0] == 'obj' and arg[3] is mapci and len(ins) == 1
+                    and struct(ins[0].key) == mid and ins[0].value == arg
+                    and struct(p.heap.get((arg, 'id'))) == mid):
+                okk, why = False, 'a missing map is not created with ' \
+                    'this id, registered under it and patched'
+        elif missing == [False]:
+            found += 1
+            if struct(arg) != look or ins:
+                okk, why = False, 'an existing map is not the one patched'
+        else:
+            okk, why = False, 'the lookup result is not tested'
+    if okk and created and found:
         report.ok(R, 'apply_to_map_set: lookup by map_id, create if '
                   'missing, apply')
     else:
         report.violation(R, 'map:set', fs.path, fs.node, fs.qualname,
                          'apply_to_map_set does not look up / create the '
-                         'map by map_id and then apply the packet')
+                         'map by map_id and then apply the packet (%s)'
+                         % why)
 
 
 # ---------------------------------------------------------------------------
@@ -494,7 +583,7 @@ def aliases(report, db):
 
 
 # ---------------------------------------------------------------------------
-def records(report, db):
+def records(report, db, S):
     R = report.rule('R20.5', 'records: __eq__ and __hash__ enumerate the '
                     'same _all_slots(); vector operators build type(self) '
                     'and pair components x, y, z with one operator')
@@ -504,21 +593,74 @@ def records(report, db):
     ne = db.own_method(ci, '__ne__')
     if None in (eq, hs):
         raise AnalysisError('MutableRecord.__eq__/__hash__ vanished')
-    se, sh = ast.unparse(eq.node), ast.unparse(hs.node)
-    slots = 'self._all_slots()'
-    if slots in se and slots in sh and 'type(self) is type(other)' in se \
-            and 'getattr(self, a) == getattr(other, a)' in se and \
-            'type(self)' in sh:
+    me, ot = sy(eq.params[0]), sy(eq.params[1])
+    als_fi = db.own_method(ci, '_all_slots')
+
+    def is_slots(t):
+        return t[0] == 'call' and t[1][0] == 'fn' and t[1][1] is als_fi \
+            and not t[2] and not t[3]
+
+    def iterables(paths):
+        out = set()
+        for p in paths:
+            for t in path_terms(p):
+                if t[0] == 'elem':
+                    out.add(struct(t[1]))
+        return out
+    pe = S.run(eq)
+    same_type = [('op', 'is', (('op', 'type', (a,)), ('op', 'type', (b,))))
+                 for a, b in ((me, ot), (ot, me))]
+    its = iterables(pe)
+    cmp_seen = False
+    for p in pe:
+        for t in path_terms(p):
+            if t[0] == 'op' and t[1] == '==' and len(t[2]) == 2 and all(
+                    x[0] == 'op' and x[1] == 'getattr' and x[2][1][0] ==
+                    'elem' for x in t[2]):
+                l, r = t[2]
+                if {struct(l[2][0]), struct(r[2][0])} == {me, ot} and \
+                        struct(l[2][1]) == struct(r[2][1]):
+                    cmp_seen = True
+    type_ok = True
+    for p in pe:
+        v = p.value
+        if v is None or v == ('const', False):
+            continue
+        # a result that may be true needs the types to be the same
+        if not (any(struct(a) in same_type and pol for a, pol, _ in p.conds)
+                or struct(v) in same_type):
+            type_ok = False
+    ph = S.run(hs)
+    hme = sy(hs.params[0])
+    hits = iterables(ph)
+    htype = any(struct(t) == ('op', 'type', (hme,)) for p in ph
+                for t in pathsum.subterms(p.value or ()))
+    hget = any(t[0] == 'op' and t[1] == 'getattr' and struct(t[2][0]) == hme
+               and t[2][1][0] == 'elem' for p in ph
+               for t in pathsum.subterms(p.value or ()))
+    if len(its) == 1 and len(hits) == 1 and all(
+            is_slots(t) for t in its | hits) and cmp_seen and type_ok and htype and hget:
         report.ok(R, '__eq__ and __hash__ both range over _all_slots() and '
                   'include the type')
     else:
         report.violation(R, 'record:eq-hash', eq.path, eq.node, eq.qualname,
                          '__eq__ and __hash__ do not enumerate the same '
                          'slots / type: equal records could hash '
-                         'differently')
-    if ne is not None and 'not self == other' in ast.unparse(ne.node).replace(
-            '(', '').replace(')', ''):
-        report.ok(R, '__ne__ is the negation of __eq__')
+                         'differently (eq ranges over %s%s%s, hash over '
+                         '%s%s%s)'
+                         % (sorted(show(x) for x in its),
+                            '' if cmp_seen else ', no slot-wise comparison',
+                            '' if type_ok else ', ignores the type',
+                            sorted(show(x) for x in hits),
+                            '' if htype else ', ignores the type',
+                            '' if hget else ', not the slot values'))
+    if ne is not None:
+        pn = S.run(ne)
+        nme, no = sy(ne.params[0]), sy(ne.params[1])
+        neg = all(struct(p.value) == ('op', 'not', (('op', '==', (nme, no)),
+                                                    )) for p in pn)
+        if neg:
+            report.ok(R, '__ne__ is the negation of __eq__')
     als = db.own_method(ci, '_all_slots')
     if als is not None and 'reversed(cls.__mro__)' in ast.unparse(als.node) \
             and "__dict__.get('__slots__'" in ast.unparse(als.node):
@@ -564,7 +706,7 @@ def records(report, db):
     ops = {'__add__': '+', '__sub__': '-', '__mul__': '*',
            '__rmul__': '*', '__truediv__': '/', '__floordiv__': '//'}
     n = 0
-    for name, op in sorted(ops.items()):
+    for name, sign in sorted(ops.items()):
         fi = db.own_method(vec, name)
         if fi is None:
             report.violation(R, 'vector:missing:%s' % name, vec.path,
@@ -572,36 +714,45 @@ def records(report, db):
                              % name)
             continue
         n += 1
-        calls = [c for c in ast.walk(fi.node) if isinstance(c, ast.Call)
-                 and ast.unparse(c.func) == 'type(self)']
-        if len(calls) != 1 or len(calls[0].args) != 3:
+        me, o = sy(fi.params[0]), sy(fi.params[1])
+        built = [(p, p.value) for p in S.run(fi) if p.returns and
+                 p.value != ('builtin', 'NotImplemented')]
+        if not built or not all(v[0] == 'call' and struct(v[1]) == (
+                'op', 'type', (me,)) and len(v[2]) == 3 and not v[3]
+                for _, v in built):
             report.violation(R, 'vector:type:%s' % name, fi.path, fi.node,
                              fi.qualname, '%s does not build its result '
                              'with type(self)(x, y, z): the operand\'s type '
                              'is lost' % name)
             continue
-        o = fi.params[1]
         good = True
-        for comp, a in zip('xyz', calls[0].args):
-            vector_op = name in ('__add__', '__sub__')
-            lhs = 'self.%s' % comp
-            rhs = '%s.%s' % (o, comp) if vector_op else o
-            forms = ['%s %s %s' % (lhs, op, rhs)]
-            if name == '__rmul__':
-                forms = ['%s %s %s' % (rhs, op, lhs)]
-            if ast.unparse(a) not in forms:
-                good = False
+        for _, v in built:
+            for comp, a in zip('xyz', v[2]):
+                vector_op = name in ('__add__', '__sub__')
+                lhs = at(me, comp)
+                rhs = at(o, comp) if vector_op else o
+                want = ('op', sign, (rhs, lhs) if name == '__rmul__'
+                        else (lhs, rhs))
+                if struct(a) != want:
+                    good = False
         if good:
-            report.ok(R, 'Vector.%s: component-wise %s' % (name, op))
+            report.ok(R, 'Vector.%s: component-wise %s' % (name, sign))
         else:
             report.violation(R, 'vector:components:%s' % name, fi.path,
                              fi.node, fi.qualname, '%s is not component-'
                              'wise %s on x, y, z: %s' % (
-                                 name, op, [ast.unparse(a)
-                                            for a in calls[0].args]))
+                                 name, sign, [show(a) for a in
+                                              built[0][1][2]]))
     neg = db.own_method(vec, '__neg__')
-    if neg is not None and 'type(self)(-self.x, -self.y, -self.z)' in \
-            ast.unparse(neg.node):
+    okn = False
+    if neg is not None:
+        me = sy(neg.params[0])
+        okn = all(p.returns and p.value[0] == 'call' and struct(
+            p.value[1]) == ('op', 'type', (me,)) and [struct(a) for a in
+                                                      p.value[2]] == [
+            ('op', 'usub', (at(me, c),)) for c in 'xyz']
+            for p in S.run(neg))
+    if okn:
         report.ok(R, 'Vector.__neg__')
     else:
         report.violation(R, 'vector:neg', vec.path, vec.node, vec.qualname,
